@@ -14,6 +14,7 @@ from common import show_list, frac_str
 LEVEL = "other"
 LEAN_PROPS = ["FastTicc.Props.C05"]
 LEAN_HELPERS = ["FastTicc.Proofs.Stats"]
+LEAN_TRANSLATED = {"FastTicc.Props.TrLoglik": ["point_log_likelihood_fast", "all_points_all_clusters_log_likelihood_fast"]}
 RULE = ("(a) the per-point kernel on dyadic points, means and SPD dyadic precision matrices vs the model at Rat (same "
         "log terms supplied); (b) the all-points table (with its log-determinant refresh) vs an independent density for "
         "NW in [1,200] and log-determinants in [-3000,3000]; (c) completed runs: per-point values, sums, means, medians "
@@ -104,12 +105,31 @@ def run(ctx):
                      f"{show_list(c['theta'], lambda r: show_list(r, lambda v: frac_str(Fraction(v))), ';')} "
                      f"{show_list(c['mu'], lambda v: frac_str(Fraction(v)))} {show_list(c['x'], lambda v: frac_str(Fraction(v)))}")
     outs = ctx.driver.run(lines)
+    gen_point, gen_table = [], []
+    l2pi = frac_str(Fraction(float(np.log(2 * math.pi))))
+    fr = lambda v: frac_str(Fraction(v))
     for c, mo in zip(kern, outs):
         n = c["n"]
         theta = np.array([[float(Fraction(v)) for v in r] for r in c["theta"]])
         mu = np.array([float(Fraction(v)) for v in c["mu"]])
         x = np.array([float(Fraction(v)) for v in c["x"]])
         got = float(likelihood.point_log_likelihood_fast(x, mu, theta, float(Fraction(c["logdet"])), n, 1))
+        # the kernels TRANSLATED from the source, at exact rationals, on the same arguments (log(2 pi) passed as the
+        # double the code uses): the per-point kernel, and the table kernel on two windows / two clusters built from them
+        th_s = show_list(c["theta"], lambda r: show_list(r, fr), ";")
+        gen_point.append((f"{l2pi} {show_list(c['x'], fr)} {show_list(c['mu'], fr)} {th_s} {fr(c['logdet'])} {n} 1",
+                          "ok " + fr(got), c))
+        if math.isfinite(got):
+            x2 = x[::-1].copy()
+            mus2 = np.vstack([mu, mu * 0.5])
+            thetas2 = np.stack([theta, theta * 2.0])
+            lds2 = np.array([float(Fraction(c["logdet"])), 0.25])
+            data2 = np.vstack([x, x2])
+            tab = likelihood.all_points_all_clusters_log_likelihood_fast(n, 2, mus2, thetas2, lds2, data2)
+            rows_ = lambda M: show_list([[Fraction(float(v)) for v in r] for r in M], lambda r: show_list(r, frac_str), ";")
+            gen_table.append((f"{l2pi} {n} 2 {rows_(mus2)} {rows_(thetas2[0])}|{rows_(thetas2[1])} "
+                              f"{show_list([Fraction(float(v)) for v in lds2], frac_str)} {rows_(data2)}",
+                              "ok " + rows_(tab), c))
         model = float(Fraction(mo))
         # independent: with this logdet supplied, the value is 0.5*(logdet - q - n log 2pi), q exact
         d = [Fraction(a) - Fraction(b) for a, b in zip(c["x"], c["mu"])]
@@ -122,6 +142,9 @@ def run(ctx):
         offdiag = any(Fraction(c["theta"][i][j]) != 0 for i in range(n) for j in range(n) if i != j)
         ctx.count("kernel_cases")
         ctx.case(("kern", repr(c)), nontrivial=n >= 2 and offdiag)
+
+    ctx.gen_compare("point_log_likelihood_fast", gen_point, tol=1e-12)
+    ctx.gen_compare("all_points_all_clusters_log_likelihood_fast", gen_table, tol=1e-12)
 
     # ---------------- (b) table vs independent density over sizes and determinant ranges
     for c in sweeps:
